@@ -93,6 +93,11 @@ def main_schema(mech, location, version):
         return head + '<xs:include schemaLocation="%s"/>' % loc + tail
     if mech == 'import':
         return head + '<xs:import namespace="urn:i" schemaLocation="%s"/>' % loc.replace('inc.xsd', 'imp.xsd') + tail
+    if mech.startswith('import2'):
+        # a second import of a namespace that is already loaded from inside the sandbox (the loader classes differ in
+        # whether and how they look at the second location)
+        return (head + '<xs:import namespace="urn:i" schemaLocation="imp.xsd"/>'
+                '<xs:import namespace="urn:i" schemaLocation="%s"/>' % loc.replace('inc.xsd', 'imp.xsd') + tail)
     if mech == 'redefine':
         return (head + '<xs:redefine schemaLocation="%s"><xs:simpleType name="ST"><xs:restriction base="t:ST">'
                 '<xs:maxLength value="5"/></xs:restriction></xs:simpleType></xs:redefine>' % loc + tail)
@@ -167,6 +172,11 @@ def subject(case):
                     res['hint_errors'] = len(list(schema.iter_errors(doc, use_location_hints=True)))
                 except Exception as e:  # noqa
                     res['hint_exc'] = common.exc_class(e)
+            elif mech.startswith('import2'):
+                from xmlschema import loaders
+                lc = {'import2-safe': loaders.SafeSchemaLoader, 'import2-location': loaders.LocationSchemaLoader,
+                      'import2': loaders.SchemaLoader}[mech]
+                schema = cls(main, allow=mode, loader_class=lc)
             else:
                 schema = cls(main, allow=mode)
             res['build'] = 'ok'
@@ -423,7 +433,8 @@ def check_reparse(ctx):
 def gen(ctx):
     cases = []
     modes = ['all', 'remote', 'local', 'sandbox', 'none']
-    mechs = ['main', 'include', 'import', 'redefine', 'override', 'hint', 'hint-inner', 'mapper', 'mapper-dict']
+    mechs = ['main', 'include', 'import', 'redefine', 'override', 'hint', 'hint-inner', 'mapper', 'mapper-dict',
+             'import2', 'import2-safe', 'import2-location']
     spells = ['relative', 'dotted', 'absolute', 'file-url', 'detour', 'double-slash', 'encoded-dots', 'encoded-dots-2',
               'encoded-dots-3', 'abs-detour', 'file-url-detour']
     for mode in modes:
